@@ -461,7 +461,7 @@ class ASTSimplifyMapper(ASTIdentityMapper):
 
         # current_child is the current AST node that is being worked on.
         current_child = children_queue.popleft()
-        while isinstance(current_child, NullASTNode):
+        while isinstance(current_child, NullASTNode) and children_queue:
             current_child = children_queue.popleft()
 
         while children_queue:
